@@ -2,6 +2,8 @@ import S3V.Base.Bytes
 import S3V.Spec.Route
 import S3V.Gen.Bindings
 import S3V.Spec.Service
+import S3V.Model.HttpDe
+import S3V.Model.SigV4Base
 /-!
 Driver for the end-to-end components through `S3Service::call`:
 
@@ -103,6 +105,42 @@ def locName : Loc → String
   | .label => "label" | .query => "query" | .header => "header" | .pfx => "prefix"
   | .payload => "payload" | .bodySelf => "body-self" | .status => "status"
 
+/-! tie of the hand-written binding-helper model (`S3V.HttpDe`, the subject of `C02_decode_encode` and the rejection
+theorems) to the code: the same request is decoded by `decodeAll` over the translated binding list of the
+operation (scalar decoder = identity, so ill-typed cases are left to the end-to-end judge) -/
+
+def strBytes (s : String) : Bytes := s.toUTF8.toList
+
+open S3V.HttpDe in
+def bindKind (b : Binding) : Option Kind :=
+  match b.loc, b.required with
+  | .header, true => some .reqHeader
+  | .header, false => some .optHeader
+  | .query, true => some .reqQuery
+  | .query, false => some .optQuery
+  | _, _ => none
+
+open S3V.HttpDe in
+/-- list-valued header members are exactly those whose member name ends in `attributes` (read from the helper
+    name by the translator would be better; the two list headers of the S3 model are object-attribute lists) -/
+def helperModelVerdict (op : Op) (headersField target : String) : Option (Except Err Unit) :=
+  let hdrs : List (Name × Bytes) := (decodeList headersField).map fun h =>
+    let (n, v) := splitFirst h ':'
+    (strBytes n, strBytes v)
+  let q : Option (List (Name × Bytes)) :=
+    match ((hexDecode target).map bytesToString).getD "" |>.splitOn "?" with
+    | _ :: rest@(_ :: _) => some (S3V.SigV4.formParse (strBytes ("?".intercalate rest)))
+    | _ => none
+  let r : Req := ⟨hdrs, q⟩
+  let binds : List (Bind Bytes) := (implInputs op).filterMap fun b =>
+    let isList := (bytesToString b.member).endsWith "attributes"
+    match bindKind b with
+    | some k =>
+      let k' := if isList then Kind.listHeader b.required else k
+      some ⟨k', b.wire, some⟩
+    | none => none
+  some ((decodeAll r binds).map fun _ => ())
+
 def judgeInput (id : String) (fs : List String) (outs : List String) : String :=
   match fs, outs with
   | [_cfg, _method, _target, _headers, _body, opn, expect, sent], status :: code :: calls :: fields :: _ =>
@@ -116,7 +154,20 @@ def judgeInput (id : String) (fs : List String) (outs : List String) : String :=
         let kind := ((expect.splitOn ":").getD 1 "")
         if calls.contains s!"backend:{op.backendMethod}:-:-:-" then
           specfail id ("input-accepted:" ++ kind) s!"{opn} {expect} status={status}"
-        else agree id ("reject:" ++ kind ++ (if calls.isEmpty then "" else "-other-op"))
+        else
+          -- helper model vs code on duplicate / missing members (identity scalar decoder: not for ill-typed values,
+          -- not for body-length cases, not when the reduced request denotes another operation)
+          -- (a refusal by the router — the reduced request denotes no operation — is not the helpers' business)
+          let applies := (kind == "dup" || kind == "missing") && calls.isEmpty
+            && (code == "InvalidRequest" || code == "InvalidArgument")
+          match (if applies then helperModelVerdict op _headers _target else none) with
+          | some (.ok ()) => disagree id "helper model accepts" s!"implementation refuses {expect} code={code}"
+          | some (.error e) =>
+            let want := if kind == "dup" then (e == .duplicateHeader || e == .duplicateQuery)
+                        else (e == .missingHeader || e == .missingQuery)
+            if want && code == "InvalidRequest" then agree id ("reject:" ++ kind)
+            else disagree id s!"helper model error {repr e}" s!"{expect} code={code}"
+          | none => agree id ("reject:" ++ kind ++ (if !calls.isEmpty then "-other-op" else if applies then "" else "-by-router-or-other"))
       else
       let sent := (decodeList sent).map parseSent
       let fields := (decodeList fields).map (fun s => let (a, b) := splitFirst s '='; (normName a, b))
@@ -154,7 +205,10 @@ def judgeInput (id : String) (fs : List String) (outs : List String) : String :=
               if f.2 == p || (p == "None" && f.2 == "[]") then none
               else some s!"{m}: table predicts {p}, arrived {f.2}"
             | some _, none => some s!"{m}: no such field")
-          if modelBad.isEmpty then agree id ("op:" ++ opn) else disagree id ("; ".intercalate modelBad) "fields"
+          if !modelBad.isEmpty then disagree id ("; ".intercalate modelBad) "fields"
+          else match helperModelVerdict op _headers _target with
+            | some (.error e) => disagree id s!"helper model refuses: {repr e}" "implementation accepts"
+            | _ => agree id ("op:" ++ opn)
   | _, _ => badline id
 
 /-! ## svcauth (C07) -/
